@@ -93,7 +93,7 @@ class Run(object):
         self.proto = TorControlProtocol()
         self.tr = proto_helpers.StringTransport()
         self.sim = simtor.SimTor(self.proto, self.tr)
-        self.sim.hold = lambda line: line.startswith("CLOSECIRCUIT") or line.startswith("CLOSESTREAM")
+        self.sim.hold = lambda line: line.split(" ")[0] in ("CLOSECIRCUIT", "CLOSESTREAM", "EXTENDCIRCUIT")
         self.tc = dict((c, None) for c in circ_ids)      # Tor's truth, for the snapshot
         self.ts = dict((s, None) for s in stream_ids)
         self.state = None
@@ -193,6 +193,17 @@ class Run(object):
                     d = self.sobj[e["id"]].close()
                 d.addCallbacks(self._wok, self._werr, callbackArgs=(x,), errbackArgs=(x,))
                 self.sim.pump()
+            elif a == "Build":
+                x = e["x"]
+                self.waits[x] = dict(k="build", out="p", n=0, id=e["id"])
+
+                def answer(line, cid=e["id"]):
+                    self.lastline.pop(("c", cid), None)        # the reply resets the object's flags: nothing to compare
+                    return ("250 EXTENDED %d\r\n" % cid).encode()
+                self.sim.handlers["EXTENDCIRCUIT"] = answer
+                d = self.state.build_circuit()
+                d.addCallbacks(self._wok, self._werr, callbackArgs=(x,), errbackArgs=(x,))
+                self.sim.pump()
             elif a == "Ack":
                 self.sim.release()
             else:
@@ -231,7 +242,7 @@ class Run(object):
                 circ.append(dict(live=False, st="none", path=[], pur="", bf=0, streams=[]))
             else:
                 bfs = ",".join(o.build_flags)
-                bf = [k for k, v in BF.items() if v == bfs]
+                bf = [k for k, v in BF.items() if v == bfs] or ([0] if bfs == "" else [])
                 circ.append(dict(live=True, st=o.state, path=[HEX2NAME.get(r.id_hex[1:], "?") for r in o.path],
                                  pur=o.purpose or "", bf=bf[0] if bf else -1, streams=[x.id for x in o.streams]))
                 line = self.lastline.get(("c", c))
@@ -252,7 +263,7 @@ class Run(object):
         wrote = []
         for line in self.sim.log[self.nlog:]:
             w = line.split()
-            if w[0] in ("CLOSECIRCUIT", "CLOSESTREAM"):
+            if w[0] in ("CLOSECIRCUIT", "CLOSESTREAM", "EXTENDCIRCUIT"):
                 wrote.append([w[0], int(w[1])])
         self.nlog = len(self.sim.log)
         return dict(circ=circ, strm=strm, notes=self.notes, waits=[dict(self.waits[w]) for w in self.wait_ids],
